@@ -10,9 +10,11 @@ from ..oracle import (ACCEPT, REJECT, EITHER, slack3, slack_tripped_int, validsi
                       ed_verify, pubkey_of_seed)
 
 PID = 'C14'
-ISOLATE = False
+ISOLATE = True      # one forked process per run: nothing a run does to process-global
+                    # state can reach another run, so every run replays on its own
 RUNS = {'quick': 5000, 'thorough': 90000}
 STEP_KEYS = ['steps']
+BATCH = 8           # runs per forked process (see core.execute_seq)
 COMPONENTS = {
     'real': ['Certificate.preimage/pack/unpack', 'make_delegate_key_cert',
              'make_delegate_key_lock', 'make_delegate_key_chain_lock',
